@@ -383,6 +383,10 @@ def run(rep):
     # no optimiser pass may turn a nested block into a dotted key or back (they differ over arrays): every arm is identity/congruence/reviewed
     import core
     core.import_rules(rep, "c01", {"PASS-ARMS"})
+    core.import_rules(rep, "c01", {"LAW"}, key_prefixes=("LAW/shake_1/nested-merge",))
+    # a matrix cell's synthetic key must resolve to its own column's value, never to another key's
+    core.import_rules(rep, "c03", {"L-MATRIX"}, key_prefixes=("L-MATRIX/cache-decode", "L-MATRIX/cache-size", "L-MATRIX/lookup-"))
+    core.import_rules(rep, "c16", {"PROV-CACHE"})
     rep.floor("T-FIND", 24)
     rep.floor("STEP-TOTAL", 10)
     rep.floor("INDEX", 16)
